@@ -195,6 +195,32 @@ pub fn execute(check: &str, plan: Plan, want_log: bool) -> RunResult {
     add("rejected_request", facts.invalid_argument);
     let cancels = events.iter().filter(|e| matches!(e.ev, Ev::CancelBg { .. })).count() as u64;
     add("cancelled_blocking_pull", cancels);
+    // slow consumer: a client that stopped reading its stream; and how often the server's handler
+    // actually produced a response while the client was not reading (the pipe took it)
+    let stall_starts = events.iter().filter(|e| matches!(e.ev, Ev::StreamStall { on: true, .. })).count() as u64;
+    add("stalled_stream_client", stall_starts);
+    let mut stalled_items = 0u64;
+    for st in model.streams.values() {
+        for (on, off) in st.stalls.iter() {
+            stalled_items += st.items.iter().filter(|(seq, _, _)| *seq > *on && off.map(|o| *seq < o).unwrap_or(true)).count() as u64;
+        }
+    }
+    add("response_produced_into_stalled_pipe", stalled_items);
+    // requests issued at the instant a lease runs out (within 1 ms of the client-side lease end)
+    let edge_steps = plan_for_result.phases.iter().flat_map(|p| p.scripts.iter()).flat_map(|s| s.iter()).filter(|st| matches!(st.op, crate::plan::Op::SleepUntilLeaseEnd { .. })).count() as u64;
+    add("request_aligned_to_lease_end", edge_steps);
+    // client retries of abandoned requests (request duplication)
+    let mut retries = 0u64;
+    for p in plan_for_result.phases.iter() {
+        for s in p.scripts.iter() {
+            for w in s.windows(2) {
+                if (w[0].abandon_at > 0 || w[0].abandon_after_us > 0) && w[1].abandon_at == 0 && w[1].abandon_after_us == 0 && w[0].op == w[1].op {
+                    retries += 1;
+                }
+            }
+        }
+    }
+    add("client_retry_of_abandoned_request", retries);
     // State fingerprint: the sequence of barrier snapshots.
     let mut state_fp = 0u64;
     for s in model.stats.iter() {
